@@ -107,8 +107,9 @@ Proof. exact resume_merge_refuted. Qed.
 Print Assumptions C07_resume_merge_refuted.
 
 (* repaired code: EVERY crash point - before or right after any mutation - resumes to identical outputs.
-   Partial: computed for the family (up to 3 chromosomes), not proved for every chromosome list. *)
-Theorem C07_resume_any_crash_point_partial : forall cf, In cf (family true true true) ->
+   Partial: computed for the family (up to 3 chromosomes) and for the same configurations run with --read_assignments on the
+   saves of a --keep_tmp run (reuse_family), not proved for every chromosome list. *)
+Theorem C07_resume_any_crash_point_partial : forall cf, In cf (family true true true ++ reuse_family true true) ->
   forall k after, (1 <= k <= n_mutations cf)%nat -> outcome_of cf k after = Identical.
 Proof. exact resume_any_crash_point_small. Qed.
 Print Assumptions C07_resume_any_crash_point_partial.
@@ -134,12 +135,12 @@ Definition bundled_current : cfg :=
   mkcfg bundled_setup [] false [0] [0] [COpen 0; COpen 1; CTouch 2; CTouch 5; CTouch 8; COpen 20; COpen 21; COpen 22]
         [DCounterU 2 3; DCounterU 5 6; DReadStat; DCounterU 8 9; DTrStat]
         [MPrinter 20; MPrinter 21; MCounterU 8 9 10; MPrinter 22; MPrinter 1; MPrinter 0; MCounterU 2 3 4; MCounterU 5 6 7] true false
-        [Save 0; Bamstat 0; Collected 0; Groups 0; Processed 0; ReadStat 0; TrStat 0; Info; SaveLock; Multi 0; RGLock] false false.
+        [Save 0; Bamstat 0; Collected 0; Groups 0; Processed 0; ReadStat 0; TrStat 0; Info; SaveLock; Multi 0; RGLock] false false false.
 Definition bundled_repaired : cfg :=
   mkcfg bundled_setup [] false [0] [0] [COpen 0; COpen 1; CTouch 2; CTouch 5; CTouch 8; COpen 20; COpen 21; COpen 22]
         [DCounterU 2 3; DCounterU 5 6; DReadStat; DCounterU 8 9; DTrStat]
         [MPrinter 20; MPrinter 21; MCounterU 8 9 10; MPrinter 22; MPrinter 1; MPrinter 0; MCounterU 2 3 4; MCounterU 5 6 7] true false
-        [RGLock; SaveLock; Collected 0; Save 0; Bamstat 0; Groups 0; ReadStat 0; TrStat 0; Info; Multi 0] true true.
+        [RGLock; SaveLock; Collected 0; Save 0; Bamstat 0; Groups 0; ReadStat 0; TrStat 0; Info; Multi 0] true true false.
 Example harness_cfg_is_gen_cfg :
   bundled_current = gen_cfg bundled_setup [0] [] false true false false false false false /\
   bundled_repaired = gen_cfg bundled_setup [0] [] false true false false true true true.
